@@ -26,6 +26,7 @@
 #include "common.hh"
 #include <climits>
 #include <csetjmp>
+#include <cfenv>
 #include <type_traits>
 
 using namespace Parma_Polyhedra_Library;
@@ -461,6 +462,7 @@ static const char* judge(const Dest& d, Result r, Rounding_Dir dir, const XV& E,
 //   mpz-ldouble-neg  mpz <- long double in (-1, 0) (and mixed comparisons of the two): goes through float_mpq_to_string
 //   int-ldouble-rint  integer <- long double whose value needs more than 53 significant bits (rint() in double precision)
 //   cmp-float-nan     native integer compared with a native float NaN
+//   fma-inf      float add_mul / sub_mul with an infinite accumulator (strict relation from an inexact intermediate product)
 //   cmp-mp-float cmp of a native mpz/mpq with a native float NaN / infinity (SIGFPE inside GMP)
 //   int-float-edge  integer <- float conversion (and mixed comparisons) with the float just outside the integer range
 //   cmp-swap     greater_than / greater_or_equal between operands whose policies differ in has_nan / has_infinity
@@ -476,6 +478,17 @@ static bool float_edge(const Dest& d, const XV& E) {
   if (E.v < d.lo) return E.v >= d.lo - (abs(d.lo) + 1) / 1000000 - 1;
   return false;
 }
+
+// GMP signals a conversion of NaN / infinity by an integer division by zero (SIGFPE); the CHECK_P macro of the checked
+// kernel uses the plain assert() (SIGABRT in assertion-enabled builds).  Library calls run under a guard that turns
+// these signals into a failing check ("....signal") instead of a process crash.
+static sigjmp_buf g_fpe_jb; static volatile sig_atomic_t g_fpe_armed = 0; static volatile sig_atomic_t g_fpe_sig = 0;
+static void fpe_handler(int sig) { if (g_fpe_armed) { g_fpe_armed = 0; g_fpe_sig = sig; siglongjmp(g_fpe_jb, 1); } vf::crash_handler(sig); }
+static void arm_fpe() { static bool inst = false; if (!inst) { inst = true; std::signal(SIGFPE, fpe_handler); std::signal(SIGABRT, fpe_handler); } }
+// A signal handler starts with a pristine FPU state and siglongjmp() skips the sigreturn that would restore the
+// interrupted one: the floating point environment (PPL runs with upward rounding) is saved before and restored after.
+static fenv_t g_fenv;
+static std::string sigdesc() { return g_fpe_sig == SIGFPE ? "SIGFPE (integer division by zero)" : "SIGABRT (assert() / abort())"; }
 
 // ---- operations
 enum Op { NEG, ABS, FLOOR, CEIL, TRUNC, SQRT, ADD, SUB, MUL, DIV, IDIV, REM, GCD, LCM, ADD_MUL, SUB_MUL,
@@ -612,6 +625,7 @@ static bool run_op(vf::Ctx& c, int op, const typename NumOf<T, P>::type& x, cons
   }
   if (diri < 0) { diri = (int) c.t.range(0, ND - 1); if (diri == 5 && !(repr && nn_allowed(op, d.cat))) diri = (int) c.t.range(0, 4); }
   else if (diri == 5 && !(repr && nn_allowed(op, d.cat))) return false;
+  if constexpr (TT<T>::cat == 1) { if ((op == ADD_MUL || op == SUB_MUL) && tv.k != 0 && known("fma-inf")) return false; }
   if constexpr (TT<T>::cat == 3) { if (op == SQRT && xv.k == 0 && (xv.v <= 1 || diri == 2 || diri == 5) && known("sqrt-mpq")) return false; }
   const Rounding_Dir dir = DIRS(diri);
   N to = t0;
@@ -620,9 +634,17 @@ static bool run_op(vf::Ctx& c, int op, const typename NumOf<T, P>::type& x, cons
     if (op_2exp(op)) c.log << " exp=" << e; if (op == ADD_MUL || op == SUB_MUL) c.log << " to=" << show(tv);
     c.log << " dir=" << DIRN(diri) << " exact=" << show(E) << "\n";
   }
-  Result r;
-  try { r = exec<T, P>(op, to, x, y, e, dir); }
+  Result r = V_EQ;
+  arm_fpe(); std::fegetenv(&g_fenv);
+  if (sigsetjmp(g_fpe_jb, 1) != 0) {
+    std::fesetenv(&g_fenv);
+    c.check(std::string(idpfx) + CATN[d.cat] + "." + OPN[op] + ".signal", false, d.tname + "/" + d.pname + " " + OPN[op] + "(x=" + show(xv) + ", y=" + show(yv) + ", exp=" + std::to_string(e) + ") dir=" + DIRN(diri) + ": " + sigdesc());
+    return true;
+  }
+  g_fpe_armed = 1;
+  try { r = exec<T, P>(op, to, x, y, e, dir); g_fpe_armed = 0; }
   catch (vf::PplAssert& a) {
+    g_fpe_armed = 0;
     if (a.site.compare(0, 11, "unreachable") != 0) throw;
     c.check(std::string(idpfx) + CATN[d.cat] + "." + OPN[op] + ".unreachable", false, d.tname + "/" + d.pname + " " + OPN[op] + "(x=" + show(xv) + ", y=" + show(yv) + ") dir=" + DIRN(diri) + ": " + a.what());
     return true;
@@ -656,12 +678,6 @@ static bool run_op(vf::Ctx& c, int op, const typename NumOf<T, P>::type& x, cons
   }
   return true;
 }
-
-// GMP signals a conversion of NaN / infinity by an integer division by zero (SIGFPE).  The comparison functions are
-// run under a guard that turns the signal into a failing check instead of a process crash.
-static sigjmp_buf g_fpe_jb; static volatile sig_atomic_t g_fpe_armed = 0;
-static void fpe_handler(int sig) { if (g_fpe_armed) { g_fpe_armed = 0; siglongjmp(g_fpe_jb, 1); } vf::crash_handler(sig); }
-static void arm_fpe() { static bool inst = false; if (!inst) { inst = true; std::signal(SIGFPE, fpe_handler); } }
 
 // =====================================================================================
 // case drivers
@@ -726,7 +742,15 @@ template <class T1, class P1, class T2, class P2> static void assign_case(vf::Ct
   const Rounding_Dir dir = DIRS(diri);
   c.log << "assign " << d.tname << "/" << d.pname << " <- " << s.tname << "/" << s.pname << " x=" << show(xv) << " dir=" << DIRN(diri) << "\n";
   N2 to = sentinel<T2, P2>();
+  arm_fpe(); std::fegetenv(&g_fenv);
+  if (sigsetjmp(g_fpe_jb, 1) != 0) {
+    std::fesetenv(&g_fenv);
+    c.check(std::string(CATN[d.cat]) + ".assign_" + CATN[s.cat] + ".signal", false, "assign_r(" + d.tname + "/" + d.pname + " <- " + s.tname + "/" + s.pname + " x=" + show(xv) + ") dir=" + DIRN(diri) + ": " + sigdesc());
+    return;
+  }
+  g_fpe_armed = 1;
   const Result r = assign_r(to, x, dir);
+  g_fpe_armed = 0;
   const XV S = decode<T2, P2>(to);
   std::string why; const char* rule = judge(d, r, dir, E, S, true, 0, why);
   if (rule) {
@@ -768,9 +792,10 @@ template <class T1, class P1, class T2, class P2> static void compare_case(vf::C
   if (known("cmp-float-nan") && mixedpol && ((d1.cat == 0 && d2.cat == 1 && yv.k == 2) || (d2.cat == 0 && d1.cat == 1 && xv.k == 2))) { c.tag("compare skipped (cmp-float-nan)"); return; }
   auto msg = [&](const char* f, bool got) { return [=]() { return std::string(f) + "(" + d1.tname + "/" + d1.pname + " " + show(xv) + ", " + d2.tname + "/" + d2.pname + " " + show(yv) + ") returned " + (got ? "true" : "false"); }; };
   bool g;
-  arm_fpe();
+  arm_fpe(); std::fegetenv(&g_fenv);
   if (sigsetjmp(g_fpe_jb, 1) != 0) {
-    c.check("cmp.sigfpe" + sfx, false, "SIGFPE (division by zero) while comparing " + d1.tname + "/" + d1.pname + " " + show(xv) + " with " + d2.tname + "/" + d2.pname + " " + show(yv));
+    std::fesetenv(&g_fenv);
+    c.check("cmp.signal" + sfx, false, sigdesc() + " while comparing " + d1.tname + "/" + d1.pname + " " + show(xv) + " with " + d2.tname + "/" + d2.pname + " " + show(yv));
     return;
   }
   g_fpe_armed = 1;
